@@ -491,7 +491,7 @@ class Trace:
             b = low.value(Rm[i][j]) if Rm is not None else Frac.of(low.R, 0)
             cnt += 1
             d = a - b
-            if not d.num.is_zero():
+            if not d.num.is_zero() and not low.R.reduce(d.num).is_zero():  # relations learned late on the path (resolved sign atoms) apply too
                 bad.append(((i, j), d))
         if bad:
             (i, j), d = bad[0]
